@@ -367,7 +367,7 @@ def check_guard(R, cls, meth, raise_foreign):
 
 @rule('C05.R3', 'transaction-identity guard dominates every effect of the '
       '2PC methods; tpc_abort has no effect for a foreign transaction',
-      props=['C03', 'C13'], min_instances=20)
+      props=['C03', 'C13', 'C06'], min_instances=20)
 def r3(R):
     for q, meths in GUARDED.items():
         cls = R.prog.cls(q)
